@@ -36,6 +36,20 @@ KEEP_PER_KEY = 12        # mismatch records kept per family and job (the others 
 MARK = '77%06d77'
 _mark_re = re.compile(r'^77(\d{6})77$')
 CLS = {'kw': 'ident'}
+# after phase 7 an identifier that spells a keyword IS that keyword; the token dump and -E print keywords in one canonical spelling
+# (bool for _Bool, inline for __inline__, ...).  Expected and observed token sequences are compared modulo that.
+KWCANON = {}
+for _g in ({'_Alignas', 'alignas'}, {'_Alignof', 'alignof', '__alignof__'}, {'_Bool', 'bool'}, {'_Static_assert', 'static_assert'},
+           {'_Thread_local', 'thread_local'}, {'__asm', '__asm__', 'asm'}, {'__attribute__', '__attribute'}, {'inline', '__inline', '__inline__'},
+           {'signed', '__signed', '__signed__'}, {'typeof', '__typeof', '__typeof__'}, {'volatile', '__volatile__'}):
+    for _w in _g:
+        KWCANON[_w] = sorted(_g, key=lambda w: (w.startswith('_'), len(w), w))[0]
+
+
+def kwcanon(toks):
+    if not isinstance(toks, tuple):
+        return toks
+    return tuple((c, KWCANON.get(sp, sp)) if c == 'ident' else (c, sp) for c, sp in toks)
 
 # ---------------------------------------------------------------------------
 # enumeration spaces
@@ -100,7 +114,7 @@ class Evaluator:
         r = self.srv.tokens(src.encode('latin-1'), cpu_s=2)
         if r.status == 0:
             try:
-                return (0, tuple((CLS.get(t[0], t[0]), t[1].decode('latin-1')) for t in fs.parse_tokens(r.out)), '')
+                return (0, kwcanon(tuple((CLS.get(t[0], t[0]), t[1].decode('latin-1')) for t in fs.parse_tokens(r.out))), '')
             except ValueError as e:
                 return (-1, None, 'unparsable token dump: %s' % e)
         return (r.status, None, r.err.decode(errors='replace')[-1500:])
@@ -109,7 +123,7 @@ class Evaluator:
         self.runs += 1
         r = self.srv.compile(src.encode('latin-1'), pp=True, cpu_s=2)
         if r.status == 0:
-            return (0, cppref.relex(r.out), r.out.decode('latin-1'))
+            return (0, kwcanon(tuple(cppref.relex(r.out))), r.out.decode('latin-1'))
         return (r.status, None, r.err.decode(errors='replace')[-1500:])
 
     # -- bookkeeping -----------------------------------------------------------
@@ -140,6 +154,9 @@ class Evaluator:
 
     def add(self, src, stratum):
         o, al = cppref.allowed(src, self.stats)
+        if o.status == 'ok':
+            o.tokens = kwcanon(tuple(o.tokens))
+        al = [kwcanon(tuple(a)) if a != 'reject' else a for a in al]
         if o.status == 'undefined':
             self.undef[o.reason] = self.undef.get(o.reason, 0) + 1
             return o
@@ -411,7 +428,7 @@ def family(rec):
         return None
     if mode == 'tokens' and st == 0:
         o2 = cppref.run(rec['src'], stale_paint=True)
-        if o2.status == 'ok' and o2.tokens == rec['obs']:
+        if o2.status == 'ok' and kwcanon(tuple(o2.tokens)) == rec['obs']:
             return 'wrong-expansion/hide-flag-painted-on-stored-body-tokens'
     if rec['exp'] == 'reject' and rec['reason'] == 'unterminated-args' and 'unspecified-nesting' in rec['flags'] and st == 0:
         # an invocation that starts inside a (pre-expanded) argument and is completed by tokens after it: cpp refuses it
@@ -619,6 +636,18 @@ KEYWORD_CASES = [
     '#define W while\nW W W\n', '#define X int\n#define Y X\nY Y X\n', '#define S(a) sizeof(a)\nS(int) S(int)\n',
     '#define X int\nX\n', '#define I(a) a\nI(int) I(int)\n', '#define X char\nX X\n',
 ]
+
+# a keyword spelling in a replacement list stays an identifier token of the preprocessor: after the macro has been expanded once
+# (in phase 7 the token became a keyword), a stringification through a nested macro still spells it as written, an identical
+# redefinition is still identical, and a later macro of that name still replaces it
+_KW_SPELLINGS = ('_Bool', 'bool', '__inline__', 'inline', '_Alignas', 'alignas', '__typeof__', 'typeof', '_Static_assert', 'static_assert', '__volatile__', 'volatile',
+                 '__signed__', 'signed', '_Thread_local', 'thread_local', '__asm__', 'int', 'while', 'sizeof', 'return', '_Generic', '__attribute__', 'unsigned', 'struct')
+for _kw in _KW_SPELLINGS:
+    _h = '#define S(x) #x\n#define XS(x) S(x)\n'
+    KEYWORD_CASES.append(_h + '#define T %s\nT\nXS(T) XS(T z)\n' % _kw)
+    KEYWORD_CASES.append(_h + '#define T %s\nT\n#define T %s\nXS(T)\nT\n' % (_kw, _kw))
+    KEYWORD_CASES.append(_h + '#define T x %s\nT\n#define %s y\nT XS(T)\n' % (_kw, _kw))
+    KEYWORD_CASES.append(_h + '#define F(a) a %s\nF(1) F(%s)\nXS(F(2)) XS(F(%s))\n#define F(a) a %s\nF(3)\n' % (_kw, _kw, _kw, _kw))
 
 DEFINITION_CASES = [
     # invalid definitions / directives: must be rejected
